@@ -4,6 +4,7 @@ pub mod c03;
 pub mod c06;
 pub mod cc14;
 pub mod numeric;
+pub mod pn;
 
 use crate::report::Report;
 use crate::util::Cfg;
@@ -18,6 +19,9 @@ pub fn run_prop(id: &str, cfg: &Cfg, rep: &mut Report) -> bool {
         "C06" => c06::run(cfg, rep),
         "C07" => cc14::run_c07(cfg, rep),
         "C08" => cc14::run_c08(cfg, rep),
+        "C09" => pn::run_c09(cfg, rep),
+        "C10" => pn::run_c10(cfg, rep),
+        "C11" => pn::run_c11(cfg, rep),
         _ => return false,
     }
     true
